@@ -50,6 +50,9 @@ UNITS = {
     '_spike_train_order_impl', '_spike_directionality_values_impl', '_optimal_spike_train_sorting_from_matrix',
 }
 
+# functions of the package by name (filled per repository): used to learn how many values a call returns
+ARITY_HELPERS: Dict[str, ast.FunctionDef] = {}
+
 PURE_CALLS = {'len', 'max', 'min', 'abs', 'float', 'int', 'fmax', 'fmin', 'fabs', 'sqrt', 'isinstance', 'range',
               'bool', 'tuple', 'slice'}
 MAX_HELPER_STMTS = 14
@@ -171,6 +174,17 @@ def compute_mutators(trees: List[ast.Module]):
     KNOWN_FUNCS.clear()
     MUTATORS.clear()
     KNOWN_FUNCS.update(n for n, _, _ in funcs)
+    # module-level functions by name (a name defined more than once is not used): how many values a call returns
+    ARITY_HELPERS.clear()
+    seen_names: Dict[str, int] = {}
+    for t in trees:
+        for st in t.body:
+            if isinstance(st, ast.FunctionDef):
+                seen_names[st.name] = seen_names.get(st.name, 0) + 1
+    for t in trees:
+        for st in t.body:
+            if isinstance(st, ast.FunctionDef) and seen_names[st.name] == 1:
+                ARITY_HELPERS[st.name] = copy.deepcopy(st)
     IMPORT_ALIASES.clear()
     for t in trees:
         for n in ast.walk(t):
@@ -2386,6 +2400,519 @@ def _drop_self_assign(fn: ast.FunctionDef) -> bool:
         if len(keep) != len(block) and keep:
             block[:] = keep
             changed = True
+        # `if c: ... else: x = x` - the else arm does nothing
+        for st in block:
+            if isinstance(st, ast.If) and len(st.orelse) == 1 and isinstance(st.orelse[0], ast.Assign) \
+                    and len(st.orelse[0].targets) == 1 and isinstance(st.orelse[0].targets[0], ast.Name) \
+                    and isinstance(st.orelse[0].value, ast.Name) and st.orelse[0].value.id == st.orelse[0].targets[0].id:
+                st.orelse = []
+                changed = True
+    visit(fn.body)
+    if changed:
+        _invalidate()
+    return changed
+
+
+def _element_loop_to_range(fn: ast.FunctionDef) -> bool:
+    """N35: `for x in S[a:]` over a sequence parameter S that the loop does not change, a a non-negative
+    literal or `max(0, e)` (a slice would clamp a negative bound, a range would not), x only read in the body and not used
+    behind the loop, is `for k in range(a, len(S))` with every `x` read as `S[k]`."""
+    params = _fn_params(fn)
+    changed = False
+    counter = [0]
+    stores_count: Dict[str, int] = {}
+    for n in ast.walk(fn):
+        if isinstance(n, ast.Name) and isinstance(n.ctx, (ast.Store, ast.Del)):
+            stores_count[n.id] = stores_count.get(n.id, 0) + 1
+    used = {n.id for n in ast.walk(fn) if isinstance(n, ast.Name)}
+
+    def nonneg(e) -> bool:
+        if isinstance(e, ast.Constant) and isinstance(e.value, int) and not isinstance(e.value, bool) and e.value >= 0:
+            return True
+        if isinstance(e, ast.Call) and isinstance(e.func, ast.Name) and e.func.id == 'max' and not e.keywords and len(e.args) == 2:
+            return any(isinstance(a, ast.Constant) and isinstance(a.value, int) and a.value >= 0 for a in e.args) \
+                and all(_is_pure_expr(a) for a in e.args)
+        return False
+
+    def visit(block):
+        nonlocal changed
+        for st in block:
+            if isinstance(st, (ast.FunctionDef, ast.ClassDef)):
+                continue
+            if isinstance(st, ast.For) and not st.orelse and isinstance(st.target, ast.Name):
+                it = st.iter
+                S, lo = None, None
+                if isinstance(it, ast.Subscript) and isinstance(it.value, ast.Name) and it.value.id in params \
+                        and isinstance(it.slice, ast.Slice) and it.slice.upper is None and it.slice.step is None \
+                        and it.slice.lower is not None and nonneg(it.slice.lower):
+                    S, lo = it.value.id, it.slice.lower
+                x = st.target.id
+                if S is not None and x != S and stores_count.get(S, 0) == 0 and stores_count.get(x, 0) == 1:
+                    # evidence that S is an indexable sequence (not an arbitrary iterable)
+                    evid = any((isinstance(n, ast.Subscript) and isinstance(n.value, ast.Name) and n.value.id == S) or
+                               (isinstance(n, ast.Call) and isinstance(n.func, ast.Name) and n.func.id == 'len' and len(n.args) == 1
+                                and isinstance(n.args[0], ast.Name) and n.args[0].id == S) for n in ast.walk(fn))
+                    body_mut = set()
+                    for b in st.body:
+                        body_mut |= mutated_names(b)
+                    nested_scope = any(isinstance(n, (ast.FunctionDef, ast.Lambda, ast.ClassDef)) for b in st.body for n in ast.walk(b))
+                    body_nodes = {id(m) for b in st.body for m in ast.walk(b)}
+                    used_outside = any(isinstance(n, ast.Name) and n.id == x and isinstance(n.ctx, ast.Load) and id(n) not in body_nodes
+                                       for n in ast.walk(fn))
+                    lo_reads = _names_loaded(lo)
+                    if evid and not ({x, S} & body_mut) and not (lo_reads & body_mut) and not nested_scope and not used_outside:
+                        counter[0] += 1
+                        k = f"{x}__pos"
+                        while k in used:
+                            k += '_'
+                        used.add(k)
+                        elem = ast.Subscript(value=ast.Name(id=S, ctx=ast.Load()), slice=ast.Name(id=k, ctx=ast.Load()), ctx=ast.Load())
+                        sub = _Subst(x, elem)
+                        st.body = [sub.visit(b) for b in st.body]
+                        st.target = ast.Name(id=k, ctx=ast.Store())
+                        st.iter = ast.Call(func=ast.Name(id='range', ctx=ast.Load()),
+                                           args=[copy.deepcopy(lo), ast.Call(func=ast.Name(id='len', ctx=ast.Load()),
+                                                                             args=[ast.Name(id=S, ctx=ast.Load())], keywords=[])],
+                                           keywords=[])
+                        ast.fix_missing_locations(st)
+                        changed = True
+            for b in _blocks_of(st):
+                visit(b)
+    visit(fn.body)
+    if changed:
+        _invalidate()
+    return changed
+
+
+def _dissolve_selection_list(fn: ast.FunctionDef) -> bool:
+    """N37: `L = [f(n) for n in X]` - defined once, f side-effect free, X and what f reads not changed afterwards - that is
+    only used as `L[e]`, `len(L)` or iterated (`for v in L` in a loop or a comprehension, v only read) is dissolved:
+    `L[e]` is `f(X[e])`, `len(L)` is `len(X)`, `for v in L` is `for v in X` with v read as f(v).  (A list of the selected
+    objects kept next to the list of their indices.)"""
+    params = _fn_params(fn)
+    stores: Dict[str, int] = {}
+    for n in ast.walk(fn):
+        if isinstance(n, ast.Name) and isinstance(n.ctx, (ast.Store, ast.Del)):
+            stores[n.id] = stores.get(n.id, 0) + 1
+    par: Dict[int, ast.AST] = {}
+    for n in ast.walk(fn):
+        for c in ast.iter_child_nodes(n):
+            par[id(c)] = n
+    all_blocks: List[List[ast.stmt]] = []
+
+    def collect(block):
+        all_blocks.append(block)
+        for s_ in block:
+            if isinstance(s_, (ast.FunctionDef, ast.ClassDef)):
+                continue
+            for b in _blocks_of(s_):
+                collect(b)
+    collect(fn.body)
+    for blk, k, st in [(b_, k_, s_) for b_ in all_blocks for k_, s_ in enumerate(b_)]:
+        if not (isinstance(st, ast.Assign) and len(st.targets) == 1 and isinstance(st.targets[0], ast.Name)
+                and isinstance(st.value, ast.ListComp) and len(st.value.generators) == 1):
+            continue
+        L = st.targets[0].id
+        g = st.value.generators[0]
+        if stores.get(L) != 1 or L in params or g.ifs or g.is_async or not isinstance(g.target, ast.Name) \
+                or not isinstance(g.iter, ast.Name):
+            continue
+        nvar, X, elt = g.target.id, g.iter.id, st.value.elt
+        if not _is_pure_expr(elt) or nvar not in _names_loaded(elt) or _size(elt) > 10:
+            continue
+        free = (_names_loaded(elt) - {nvar}) | {X}
+        # nothing the elements depend on changes behind the definition
+        later_mut: Set[str] = set()
+        for t in blk[k + 1:]:
+            later_mut |= mutated_names(t)
+        if free & later_mut or L in later_mut:
+            continue
+        uses = [n for n in ast.walk(fn) if isinstance(n, ast.Name) and n.id == L and isinstance(n.ctx, ast.Load)]
+        if not uses:
+            continue
+        # every use lies behind the definition in its own block
+        behind = {id(n) for t in blk[k + 1:] for n in ast.walk(t)}
+        if any(id(u) not in behind for u in uses):
+            continue
+        plan = []
+        okk = True
+        for u in uses:
+            p = par.get(id(u))
+            if isinstance(p, ast.Subscript) and p.value is u and isinstance(p.ctx, ast.Load) and not isinstance(p.slice, ast.Slice):
+                plan.append(('elem', p))
+            elif isinstance(p, ast.Call) and isinstance(p.func, ast.Name) and p.func.id == 'len' and len(p.args) == 1 and p.args[0] is u:
+                plan.append(('len', u))
+            elif isinstance(p, ast.comprehension) and p.iter is u and isinstance(p.target, ast.Name) and p.target.id not in (nvar, L, X):
+                plan.append(('gen', p))
+            elif isinstance(p, ast.For) and p.iter is u and isinstance(p.target, ast.Name) and not p.orelse \
+                    and p.target.id not in (L, X) and stores.get(p.target.id) == 1 \
+                    and not any(p.target.id in mutated_names(b) for b in p.body):
+                plan.append(('for', p))
+            else:
+                okk = False
+                break
+        if not okk:
+            continue
+
+        def f_of(arg: ast.expr) -> ast.expr:
+            return _Subst(nvar, arg).visit(copy.deepcopy(elt))
+        for kind, node in plan:
+            if kind == 'elem':
+                new = f_of(ast.Subscript(value=ast.Name(id=X, ctx=ast.Load()), slice=node.slice, ctx=ast.Load()))
+                pp = par.get(id(node))
+                for fld, val in ast.iter_fields(pp):
+                    if val is node:
+                        setattr(pp, fld, new)
+                    elif isinstance(val, list):
+                        for i_, v_ in enumerate(val):
+                            if v_ is node:
+                                val[i_] = new
+            elif kind == 'len':
+                node.id = X
+            elif kind == 'gen':
+                comp = par.get(id(node))
+                v = node.target.id
+                repl = f_of(ast.Name(id=v, ctx=ast.Load()))
+                node.iter = ast.Name(id=X, ctx=ast.Load())
+                sub = _Subst(v, repl)
+                if hasattr(comp, 'elt'):
+                    comp.elt = sub.visit(comp.elt)
+                node.ifs = [sub.visit(c_) for c_ in node.ifs]
+            elif kind == 'for':
+                v = node.target.id
+                repl = f_of(ast.Name(id=v, ctx=ast.Load()))
+                node.iter = ast.Name(id=X, ctx=ast.Load())
+                sub = _Subst(v, repl)
+                node.body = [sub.visit(b) for b in node.body]
+        del blk[k]
+        ast.fix_missing_locations(fn)
+        _invalidate()
+        return True
+    return False
+
+
+def _drop_zero_store_into_fresh_cell(fn: ast.FunctionDef) -> bool:
+    """N38: A = np.zeros(..) at the top of the function; the one loop that fills it stores only at `A[c]` / `A[c - k]`
+    (k > 0) where c is a counter that is initialised before the loop and only ever incremented by 1, exactly once on
+    every path through the loop body and in front of the stores of that path.  Then cell c has never been written when
+    the counter reaches c, and `A[c] = 0` - with no other store to A[c] on the same path - stores what is there already."""
+    changed = False
+    body = fn.body
+    allocs: Dict[str, int] = {}
+    for k, st in enumerate(body):
+        if isinstance(st, ast.Assign) and len(st.targets) == 1 and isinstance(st.targets[0], ast.Name) and isinstance(st.value, ast.Call) \
+                and (ast.unparse(st.value.func) in ('np.zeros', 'numpy.zeros')) and len(st.value.args) == 1 and not st.value.keywords:
+            allocs[st.targets[0].id] = k
+    if not allocs:
+        return False
+    loops = [(k, st) for k, st in enumerate(body) if isinstance(st, (ast.While, ast.For))]
+
+    def is_inc(st, c):
+        return isinstance(st, ast.AugAssign) and isinstance(st.target, ast.Name) and st.target.id == c and isinstance(st.op, ast.Add) \
+            and isinstance(st.value, ast.Constant) and st.value.value == 1
+
+    def stores_to(node, A):
+        return [n for n in ast.walk(node) if isinstance(n, ast.Subscript) and isinstance(n.ctx, ast.Store)
+                and isinstance(n.value, ast.Name) and n.value.id == A]
+
+    for A, ka in allocs.items():
+        holders = [(k, L) for k, L in loops if k > ka and stores_to(L, A)]
+        if len(holders) != 1:
+            continue
+        kl, L = holders[0]
+        if isinstance(L, ast.For) or L.orelse:
+            continue
+        # nothing touches A between its allocation and the end of the loop except element stores / element reads
+        okk = True
+        for st in body[ka + 1:kl + 1]:
+            for n in ast.walk(st):
+                if isinstance(n, ast.Name) and n.id == A:
+                    p_ok = False
+                    for m in ast.walk(st):
+                        if isinstance(m, ast.Subscript) and m.value is n and not isinstance(m.slice, ast.Slice):
+                            p_ok = True
+                    if not p_ok:
+                        okk = False
+        if not okk:
+            continue
+        sts = stores_to(L, A)
+        idx_names = set()
+        for s_ in sts:
+            sl = s_.slice
+            if isinstance(sl, ast.Name):
+                idx_names.add(sl.id)
+            elif isinstance(sl, ast.BinOp) and isinstance(sl.op, ast.Sub) and isinstance(sl.left, ast.Name) \
+                    and isinstance(sl.right, ast.Constant) and isinstance(sl.right.value, int) and sl.right.value > 0:
+                idx_names.add(sl.left.id)
+            else:
+                idx_names.add('?')
+        if len(idx_names) != 1 or '?' in idx_names:
+            continue
+        c = next(iter(idx_names))
+        # the counter: plain initialisation(s) in front of the loop, increments by one inside it, nothing else
+        good_c = c not in _fn_params(fn)
+        for n in ast.walk(fn):
+            if isinstance(n, ast.Name) and n.id == c and isinstance(n.ctx, (ast.Store, ast.Del)):
+                holder = None
+                for k2, st in enumerate(body):
+                    if any(m is n for m in ast.walk(st)):
+                        holder = (k2, st)
+                if holder is None:
+                    good_c = False
+                elif holder[0] < kl:
+                    good_c = good_c and isinstance(holder[1], ast.Assign) and holder[1] in body
+                elif holder[0] == kl:
+                    inc_ok = any(is_inc(m, c) and m.target is n for m in ast.walk(L))
+                    good_c = good_c and inc_ok
+                else:
+                    good_c = False
+        if not good_c:
+            continue
+        # paths through the loop body: `fresh` - the counter was incremented on this path and nothing was stored into A[c]
+        # since (cells above every earlier value of the counter have never been written)
+        verdicts: Dict[int, List[bool]] = {}
+        where: Dict[int, Tuple[List[ast.stmt], ast.stmt]] = {}
+        fine = [True]
+
+        def walk(block, fresh_states):
+            states = set(fresh_states)
+            for st in block:
+                new_states = set()
+                for fresh in states:
+                    if is_inc(st, c):
+                        new_states.add(True)
+                    elif isinstance(st, ast.If):
+                        new_states |= walk(st.body, {fresh})
+                        new_states |= walk(st.orelse, {fresh})
+                    elif isinstance(st, (ast.While, ast.For, ast.Try, ast.With)):
+                        if stores_to(st, A) or any(is_inc(m, c) for m in ast.walk(st)):
+                            fine[0] = False
+                        new_states.add(fresh)
+                    else:
+                        ss = stores_to(st, A)
+                        at_c = [x for x in ss if isinstance(x.slice, ast.Name)]
+                        if at_c:
+                            is_zero = isinstance(st, ast.Assign) and len(st.targets) == 1 and st.targets[0] is at_c[0] \
+                                and isinstance(st.value, ast.Constant) and st.value.value in (0, 0.0) \
+                                and not isinstance(st.value.value, bool)
+                            if is_zero:
+                                verdicts.setdefault(id(st), []).append(fresh)
+                                where[id(st)] = (block, st)
+                                new_states.add(fresh)          # the cell holds 0 either way
+                            else:
+                                new_states.add(False)
+                        else:
+                            new_states.add(fresh)
+                states = new_states
+            return states
+        walk(L.body, {False})
+        if not fine[0]:
+            continue
+        for key, vs in verdicts.items():
+            b_, st = where[key]
+            if all(vs) and st in b_ and len(b_) > 1:
+                b_.remove(st)
+                changed = True
+    if changed:
+        ast.fix_missing_locations(fn)
+        _invalidate()
+    return changed
+
+
+def _repack_indexed_result(fn: ast.FunctionDef, arity_of) -> bool:
+    """N39: `r = call(...)` followed directly by `x0 = r[0]`, `x1 = r[1]`, ... (literal indices in order, starting at 0),
+    r used nowhere else, is the unpacking `x0, x1, ... = call(...)`.  All components must be taken, or the callee's arity
+    must be known (`arity_of(call)`: every return of the callee is a tuple of that length) - the missing ones then get
+    fresh names nobody reads."""
+    changed = False
+    loads: Dict[str, int] = {}
+    stores: Dict[str, int] = {}
+    for n in ast.walk(fn):
+        if isinstance(n, ast.Name):
+            if isinstance(n.ctx, ast.Load):
+                loads[n.id] = loads.get(n.id, 0) + 1
+            else:
+                stores[n.id] = stores.get(n.id, 0) + 1
+    used = set(loads) | set(stores)
+
+    def visit(block):
+        nonlocal changed
+        for st in block:
+            if isinstance(st, (ast.FunctionDef, ast.ClassDef)):
+                continue
+            for b in _blocks_of(st):
+                visit(b)
+        k = 0
+        while k < len(block):
+            st = block[k]
+            if isinstance(st, ast.Assign) and len(st.targets) == 1 and isinstance(st.targets[0], ast.Name) and isinstance(st.value, ast.Call):
+                r = st.targets[0].id
+                if stores.get(r) == 1 and r not in _fn_params(fn):
+                    takes = []
+                    targets_ast: Dict[str, ast.expr] = {}
+                    q = k + 1
+                    while q < len(block):
+                        t = block[q]
+                        if isinstance(t, ast.Assign) and len(t.targets) == 1 \
+                                and (isinstance(t.targets[0], ast.Name) or
+                                     (isinstance(t.targets[0], ast.Attribute) and isinstance(t.targets[0].value, ast.Name)
+                                      and t.targets[0].value.id != r)) \
+                                and isinstance(t.value, ast.Subscript) and isinstance(t.value.value, ast.Name) and t.value.value.id == r \
+                                and isinstance(t.value.slice, ast.Constant) and isinstance(t.value.slice.value, int) \
+                                and not isinstance(t.value.slice.value, bool):
+                            takes.append((t.value.slice.value, ast.unparse(t.targets[0])))
+                            targets_ast[ast.unparse(t.targets[0])] = t.targets[0]
+                            q += 1
+                        else:
+                            break
+                    idxs = [i for i, _ in takes]
+                    names = [n_ for _, n_ in takes]
+                    if takes and loads.get(r, 0) == len(takes) and idxs == sorted(set(idxs)) and idxs[0] >= 0 \
+                            and len(set(names)) == len(names) and r not in names \
+                            and not (set(names) & _names_loaded(st.value) - set(names) and False):
+                        n_known = arity_of(st.value)
+                        full = idxs == list(range(len(idxs)))
+                        arity = n_known if n_known is not None else (len(idxs) if full and len(idxs) >= 2 else None)
+                        if arity is not None and arity >= max(idxs) + 1 and arity >= 2:
+                            elts = []
+                            by = dict(takes)
+                            for i in range(arity):
+                                if i in by:
+                                    elts.append(copy.deepcopy(targets_ast[by[i]]))
+                                else:
+                                    nm = f"{r}__unused{i}"
+                                    while nm in used:
+                                        nm += '_'
+                                    used.add(nm)
+                                    elts.append(ast.Name(id=nm, ctx=ast.Store()))
+                            new = _fix(ast.Assign(targets=[ast.Tuple(elts=elts, ctx=ast.Store())], value=st.value), st)
+                            block[k:q] = [new]
+                            changed = True
+            k += 1
+    visit(fn.body)
+    if changed:
+        ast.fix_missing_locations(fn)
+        _invalidate()
+    return changed
+
+
+def _append_loops_to_comprehension(fn: ast.FunctionDef) -> bool:
+    """N40: `L = []` directly followed by a nest of `for` loops (optionally `if` filters) whose innermost statement is
+    `L.append(E)`, the loop bodies holding besides that only plain definitions of temporaries that E / the inner
+    iterables use, L not mentioned anywhere else in the nest: `L = [E for ... in ... for ... in ... if ...]` with the
+    temporaries substituted."""
+    changed = False
+
+    def build(loop: ast.For, L: str, subst_env: List[Tuple[str, ast.expr]]):
+        """returns (generators, elt) or None"""
+        if loop.orelse or not isinstance(loop.target, (ast.Name, ast.Tuple)):
+            return None
+
+        def sub(e):
+            e = copy.deepcopy(e)
+            for v, E in reversed(subst_env):
+                e = _Subst(v, E).visit(e)
+            return e
+        gens = [ast.comprehension(target=copy.deepcopy(loop.target), iter=sub(loop.iter), ifs=[], is_async=0)]
+        body = list(loop.body)
+        env = list(subst_env)
+        tnames = {n.id for n in ast.walk(loop.target) if isinstance(n, ast.Name)}
+        while body:
+            st = body[0]
+            if isinstance(st, ast.Assign) and len(st.targets) == 1 and isinstance(st.targets[0], ast.Name) and len(body) > 1 \
+                    and _is_pure_expr(st.value) and st.targets[0].id != L and st.targets[0].id not in tnames:
+                e = copy.deepcopy(st.value)
+                for v, E in reversed(env):
+                    e = _Subst(v, E).visit(e)
+                env.append((st.targets[0].id, e))
+                body = body[1:]
+                continue
+            break
+        if len(body) != 1:
+            return None
+        st = body[0]
+
+        def sub2(e):
+            e = copy.deepcopy(e)
+            for v, E in reversed(env):
+                e = _Subst(v, E).visit(e)
+            return e
+        if isinstance(st, ast.Expr) and isinstance(st.value, ast.Call) and isinstance(st.value.func, ast.Attribute) \
+                and st.value.func.attr == 'append' and isinstance(st.value.func.value, ast.Name) and st.value.func.value.id == L \
+                and len(st.value.args) == 1 and not st.value.keywords:
+            return gens, sub2(st.value.args[0]), env
+        if isinstance(st, ast.If) and not st.orelse and len(st.body) == 1:
+            inner = st.body[0]
+            if isinstance(inner, ast.Expr) and isinstance(inner.value, ast.Call) and isinstance(inner.value.func, ast.Attribute) \
+                    and inner.value.func.attr == 'append' and isinstance(inner.value.func.value, ast.Name) \
+                    and inner.value.func.value.id == L and len(inner.value.args) == 1 and not inner.value.keywords:
+                gens[-1].ifs.append(sub2(st.test))
+                return gens, sub2(inner.value.args[0]), env
+            return None
+        if isinstance(st, ast.For):
+            r = build(st, L, env)
+            if r is None:
+                return None
+            g2, elt, env2 = r
+            return gens + g2, elt, env2
+        return None
+
+    def visit(block):
+        nonlocal changed
+        for st in block:
+            if isinstance(st, (ast.FunctionDef, ast.ClassDef)):
+                continue
+            for b in _blocks_of(st):
+                visit(b)
+        k = 0
+        while k + 1 < len(block):
+            a, b = block[k], block[k + 1]
+            if isinstance(a, ast.Assign) and len(a.targets) == 1 and isinstance(a.targets[0], ast.Name) \
+                    and isinstance(a.value, ast.List) and not a.value.elts and isinstance(b, ast.For):
+                L = a.targets[0].id
+                mentions = sum(1 for n in ast.walk(b) if isinstance(n, ast.Name) and n.id == L)
+                r = build(b, L, []) if mentions == 1 else None
+                if r is not None:
+                    gens, elt, env = r
+                    # the temporaries and loop variables must not be read behind the nest
+                    local_names = {v for v, _ in env} | {n.id for g in gens for n in ast.walk(g.target) if isinstance(n, ast.Name)}
+                    nest_nodes = {id(n) for n in ast.walk(b)}
+                    leaked = any(isinstance(n, ast.Name) and n.id in local_names and id(n) not in nest_nodes and isinstance(n.ctx, ast.Load)
+                                 for n in ast.walk(fn))
+                    if not leaked:
+                        new = _fix(ast.Assign(targets=[ast.Name(id=L, ctx=ast.Store())],
+                                              value=ast.ListComp(elt=elt, generators=gens)), a)
+                        block[k:k + 2] = [new]
+                        changed = True
+                        continue
+            k += 1
+    visit(fn.body)
+    if changed:
+        ast.fix_missing_locations(fn)
+        _invalidate()
+    return changed
+
+
+def _merge_nested_ifs(fn: ast.FunctionDef) -> bool:
+    """N41: `if A: if B: S` (neither has an else) is `if A and B: S`."""
+    changed = False
+
+    def visit(block):
+        nonlocal changed
+        for st in block:
+            if isinstance(st, (ast.FunctionDef, ast.ClassDef)):
+                continue
+            for b in _blocks_of(st):
+                visit(b)
+            while isinstance(st, ast.If) and not st.orelse and len(st.body) == 1 and isinstance(st.body[0], ast.If) \
+                    and not st.body[0].orelse:
+                inner = st.body[0]
+                vals = (st.test.values if isinstance(st.test, ast.BoolOp) and isinstance(st.test.op, ast.And) else [st.test]) + \
+                       (inner.test.values if isinstance(inner.test, ast.BoolOp) and isinstance(inner.test.op, ast.And) else [inner.test])
+                st.test = ast.BoolOp(op=ast.And(), values=vals)
+                st.body = inner.body
+                ast.fix_missing_locations(st)
+                changed = True
     visit(fn.body)
     if changed:
         _invalidate()
@@ -2438,6 +2965,10 @@ def _sink_update_into_defs(fn: ast.FunctionDef) -> bool:
     the update is applied where the value is defined - `x = F[A]` ... `if c: x = F[B]`.  (A value that is scaled where
     it is produced, or once after all the cases, is the same value.)"""
     changed = False
+    stores_all: Dict[str, int] = {}
+    for n_ in ast.walk(fn):
+        if isinstance(n_, ast.Name) and isinstance(n_.ctx, (ast.Store, ast.Del)):
+            stores_all[n_.id] = stores_all.get(n_.id, 0) + 1
 
     def subst(F: ast.expr, x: str, E: ast.expr) -> ast.expr:
         class T(ast.NodeTransformer):
@@ -2456,10 +2987,27 @@ def _sink_update_into_defs(fn: ast.FunctionDef) -> bool:
         k = 0
         while k < len(block):
             st = block[k]
+            y_ = None
             if isinstance(st, ast.Assign) and len(st.targets) == 1 and isinstance(st.targets[0], ast.Name) \
                     and not isinstance(st.value, ast.Name) and _is_pure_expr(st.value) \
-                    and _count_loads(st.value, st.targets[0].id) == 1:
+                    and _count_loads(st.value, st.targets[0].id) == 0:
+                # `y = F[x]` where x is a generated local (an inlined helper's variable) that nothing reads afterwards and y
+                # does not occur before: x continues under the name y, the update is a self-update of y
+                cands_ = [n_ for n_ in _names_loaded(st.value) if '__inl' in n_ and _count_loads(st.value, n_) == 1]
+                if len(cands_) == 1:
+                    xg, yv = cands_[0], st.targets[0].id
+                    later = any(isinstance(n_, ast.Name) and n_.id == xg for t_ in block[k + 1:] for n_ in ast.walk(t_))
+                    earlier_y = any(isinstance(n_, ast.Name) and n_.id == yv for t_ in block[:k] for n_ in ast.walk(t_))
+                    elsewhere = sum(1 for n_ in ast.walk(fn) if isinstance(n_, ast.Name) and n_.id == xg) \
+                        - sum(1 for t_ in block[:k + 1] for n_ in ast.walk(t_) if isinstance(n_, ast.Name) and n_.id == xg)
+                    if not later and not earlier_y and elsewhere == 0 and stores_all.get(yv, 0) == 1:
+                        y_ = (xg, yv)
+            if y_ is not None or (isinstance(st, ast.Assign) and len(st.targets) == 1 and isinstance(st.targets[0], ast.Name)
+                                  and not isinstance(st.value, ast.Name) and _is_pure_expr(st.value)
+                                  and _count_loads(st.value, st.targets[0].id) == 1):
                 x, F = st.targets[0].id, st.value
+                if y_ is not None:
+                    x = y_[0]
                 others = _names_loaded(F) - {x}
                 defs = []
                 q = k - 1
@@ -2484,6 +3032,8 @@ def _sink_update_into_defs(fn: ast.FunctionDef) -> bool:
                 if ok_ and found_plain and len(defs) >= 2:
                     for d in defs:
                         d.value = subst(F, x, d.value)
+                        if y_ is not None:
+                            d.targets = [ast.Name(id=y_[1], ctx=ast.Store())]
                     del block[k]
                     changed = True
                     continue
@@ -4000,11 +4550,26 @@ def normalize_function(fn: ast.FunctionDef, module_helpers: Dict[str, ast.Functi
         return None
 
     inl = _HelperInliner(None, None)
+    res_ = resolver
+    if fn.name in ANCHORS:
+        # a unit of analysis keeps its calls of other units and of its own nested definitions (the rules anchored on it
+        # follow them themselves); a private module-level helper that was split off it is still part of it
+        def res_(call, _nested, _r=resolver):
+            f_ = call.func
+            if not (isinstance(f_, ast.Name) and f_.id.startswith('_') and f_.id not in ANCHORS and f_.id not in UNITS
+                    and f_.id not in nested and f_.id in module_helpers):
+                return None
+            h_ = module_helpers[f_.id]
+            # a pure selector (comparisons, min / max, returns of its arguments - the thresholded interpolation moved to
+            # module level) is a unit of its own: the rules that decide it on weak orderings follow the call
+            if not any(isinstance(n_, (ast.BinOp, ast.AugAssign)) for n_ in ast.walk(h_)) \
+                    and all(isinstance(n_.func, ast.Name) and n_.func.id in ('min', 'max', 'fmin', 'fmax')
+                            for n_ in ast.walk(h_) if isinstance(n_, ast.Call)):
+                return None
+            return _r(call, _nested)
     for _ in range(4):
-        if fn.name in ANCHORS:
-            break               # a unit of analysis keeps its calls: the rules anchored on it follow them themselves
-        ch = inl.inline_expression_helpers(fn, nested, resolver)
-        ch = inl.inline_in(fn, nested, resolver) or ch
+        ch = inl.inline_expression_helpers(fn, nested, res_)
+        ch = inl.inline_in(fn, nested, res_) or ch
         if not ch:
             break
     # drop nested helper definitions that are no longer referenced
@@ -4023,6 +4588,20 @@ def normalize_function(fn: ast.FunctionDef, module_helpers: Dict[str, ast.Functi
         block[:] = keep or [ast.Pass()]
     drop(fn.body)
     ast.fix_missing_locations(fn)
+
+    def arity_of(call: ast.Call) -> Optional[int]:
+        f_ = call.func
+        h_ = None
+        if isinstance(f_, ast.Name):
+            h_ = nested.get(f_.id) or module_helpers.get(f_.id) or ARITY_HELPERS.get(f_.id)
+        if h_ is None:
+            return None
+        rets = [n_ for n_ in ast.walk(h_) if isinstance(n_, ast.Return)]
+        inner = {id(n_) for d_ in ast.walk(h_) if isinstance(d_, (ast.FunctionDef, ast.Lambda)) and d_ is not h_ for n_ in ast.walk(d_)}
+        rets = [r_ for r_ in rets if id(r_) not in inner]
+        if rets and all(isinstance(r_.value, ast.Tuple) for r_ in rets) and len({len(r_.value.elts) for r_ in rets}) == 1:
+            return len(rets[0].value.elts)
+        return None
 
     _strip_pass(fn.body)
     fn.body = _expand_ifexp(fn.body)
@@ -4043,9 +4622,16 @@ def normalize_function(fn: ast.FunctionDef, module_helpers: Dict[str, ast.Functi
             _SortMinMaxArgs().visit(st)
         _invalidate()
         _split_chained_assign(fn)
+        _merge_nested_ifs(fn)
         _drop_self_assign(fn)
+        _repack_indexed_result(fn, arity_of)
+        _append_loops_to_comprehension(fn)
         _conditional_override_to_select(fn)
+        while _dissolve_selection_list(fn):
+            pass
+        _drop_zero_store_into_fresh_cell(fn)
         _enumerate_to_range(fn)
+        _element_loop_to_range(fn)
         _duplicate_tail_into_arms(fn)
         _index_to_element_comprehensions(fn)
         _sink_update_into_defs(fn)
